@@ -19,6 +19,7 @@ class Obl:
     twin: bool = True  # run the reachability twin
     cost: float = 1.0  # scheduling hint (expected seconds)
     kind: str = "crosshair"  # "crosshair" | "smt" (fn() -> dict result, run directly)
+    consts: Dict[str, Any] = field(default_factory=dict)  # constants visible to known-finding region expressions
     concrete: Optional[Callable] = None  # smt kind: concrete(**args) -> truthy iff the property holds on the REAL code
 
 
